@@ -18,6 +18,7 @@ JOBS = {
     # trap_grad / min_trap_grad of sigpy/mri/rf/trajgrad.py over the operations record of model/Trap.v (C20)
     "trap": ("Gen_trap.v", lambda repo: __import__("tools.translate_trap", fromlist=["translate_trap"]).translate_trap(repo)),
     # sigpy/thresh.py and the _prox / __init__ methods of sigpy/prox.py over the operations of model/Prox.v (C11)
+    "spokes": ("Gen_spokes.v", lambda repo: __import__("tools.translate_spokes", fromlist=["translate_spokes"]).translate_spokes(repo)),
     "prox": ("Gen_prox.v", lambda repo: __import__("tools.translate_prox", fromlist=["translate_prox"]).translate_prox(repo)),
     # configuration logic of sigpy.app.LinearLeastSquares (_get_alg, _get_*) over model/LLS.v + model/LLSExpr.v (C14)
     "lls": ("Gen_lls.v", lambda repo: __import__("tools.translate_lls", fromlist=["translate_lls"]).translate_lls(repo)),
